@@ -54,7 +54,7 @@ def process_parameters(tokens: list[lexer.Token]) -> tuple[str, list[str]]:
     # this'll be the list that is returned
 
     for parameter in components[1:]:
-        if parameter.isnumeric() or parameter == "*":
+        if parameter.isdecimal() or parameter == "*":
             parameters.append(parameter)
         else:
             parameters.append(re.sub(r"[^A-z_]", "", parameter))
